@@ -20,6 +20,9 @@ def check(rep, tier, replay=None):
     rep.unit("umbrella TU filtered cspline_eval; 1 batched static_assert TU")
     import x1m
     x1m.check(rep, d["cspline_eval"])
+    # a function-local static initialised from an argument (e.g. a cached copy of the basis matrix) would make every later call evaluate the first call's curve
+    import c18
+    c18.check_staticarg(rep, d["cspline_eval"], rule="X1.s", only=["spline/detail/cumulative_spline_impl.hpp"])
     # the derivative rows fed into the recursion: monomial_derivatives<K,3>(u) rows p are d^p/du^p of (1, u, .., u^K)
     ws = [w for w in tables.utility_witnesses(6) if w.id.startswith("mder")]
     tables.run(rep, "X1m", ws, "monomial_derivative(s)<K>(u, p) == k!/(k-p)! u^(k-p) (rows used as Bcum^(p) weights)", 7)
